@@ -206,6 +206,12 @@ def main(argv):
         write_evidence(prop_id, cfg, tier, seed, res, scope, obligations, fails, kf, viol, dict(canaries=canaries), time.time() - t0)
         return 2
     extra = {}
+    rw = None
+    if tier == 'thorough':
+        import thorough
+        rw = thorough.rewrites_selftest(engine.REPO, res['key'])
+        if not rw.get('ok'):
+            tool.append('the R8/R9/R12 source-level rewrites do not preserve the repository\'s tests on this tree (%s): the extracted text cannot be trusted' % rw.get('result'))
     if tier == 'thorough' and cfg.get('thorough'):
         import thorough
         extra = thorough.run(prop_id, cfg, res, seed)
@@ -235,6 +241,7 @@ def main(argv):
             print('TOOL-ERROR: undecided: %s :: %s involves function(s) without a contract on this tree (new, untranslatable by Verus, or with a lost overlay anchor): %s' % (f['unit'], f['oid'], ', '.join(who)))
         rc = 2
     extra['canaries'] = canaries
+    if rw is not None: extra['rewrites_selftest'] = rw
     extra['unstable'] = unstable
     write_evidence(prop_id, cfg, tier, seed, res, scope, obligations, fails, kf, viol, extra, time.time() - t0)
     if rc == 0:
@@ -317,6 +324,7 @@ def write_evidence(prop_id, cfg, tier, seed, res, scope, obligations, fails, kf,
             bounded_stand_ins=extra.get('bounded', []),
             kani=extra.get('kani', []),
             vacuity_canaries=extra.get('canaries', []),
+            rewrites_selftest=extra.get('rewrites_selftest'),
             solver_instability_resolved=extra.get('unstable', []),
             explanation=cfg.get('explanation', ''),
         ),
